@@ -508,7 +508,11 @@ func c16Scenario(c *Ctx, idx int, r *Rng) (mline, mimpl, mcase string) {
 					log("chmod +w, edit %q, checkout -f", f)
 					c.R.Count("checkout.force-same-commit")
 					if wr2, ex2 := writable(f); ex2 && wr2 {
-						fail("a lockable file is writable after the checkout hook although the current user does not hold its lock", f+" (restored by `git checkout -f`)", "")
+						sig := ""
+						if verifiedOnce && (table()[f] == "bob" || theirsSeen[f]) && strings.Contains("\n"+strings.Join(cachePaths(), "\n")+"\n", "\n"+f+"\n") {
+							sig = "D13" // another user's lock, cached as an own one by a verification
+						}
+						fail("a lockable file is writable after the checkout hook although the current user does not hold its lock", f+" (restored by `git checkout -f`)", sig)
 					}
 					continue
 				}
@@ -543,7 +547,11 @@ func c16Scenario(c *Ctx, idx int, r *Rng) (mline, mimpl, mcase string) {
 					if mcode == 0 && readonly {
 						for _, l := range lockables {
 							if wr, ex := writable(l); ex && wr && table()[l] != "alice" {
-								fail("a lockable file is writable after a merge (post-merge hook) although the current user does not hold its lock", fmt.Sprintf("%s after `git merge %s`", l, kind), "")
+								sig := ""
+								if verifiedOnce && (table()[l] == "bob" || theirsSeen[l]) && strings.Contains("\n"+strings.Join(cachePaths(), "\n")+"\n", "\n"+l+"\n") {
+									sig = "D13" // another user's lock, cached as an own one by a verification
+								}
+								fail("a lockable file is writable after a merge (post-merge hook) although the current user does not hold its lock", fmt.Sprintf("%s after `git merge %s`", l, kind), sig)
 								break
 							}
 						}
@@ -798,15 +806,22 @@ func c16(c *Ctx) {
 	c.R.Rule = "cases = sequences of 4-15 operations {lock, unlock, unlock --force, unlock --id, locks, locks --local/--cached/--path/--verify, edit, commit, checkout, push} by the client under test over 5 lockable paths (incl. a name with a blank and a non-LFS lockable file) and non-lockable files, interleaved with another user's lock/unlock on the server, server answers ok/403/404/501/500 and paginated lists, locksverify true/false/unset, lfs.setlockablereadonly on/off; after every step the server table and `git lfs locks --local --json` are compared with the model; push exits are judged against the table and `git log --name-only`; a final full-scan checkout hook run is followed by a write-bit check of every lockable file; non-trivial = sequence with >= 1 lock-state step; distinct = different (seed, index)"
 	n := c.N(80, 1500)
 	if c.Replay == "" {
-		c16CommitHook(c, r.Fork())
-		c16UnlockUncached(c, r.Fork())
+		r1, r2 := r.Fork(), r.Fork()
+		if os.Getenv("VERIF_IDX") == "" {
+			c16CommitHook(c, r1)
+			c16UnlockUncached(c, r2)
+		}
 	}
 	var wg sync.WaitGroup
 	sem := make(chan struct{}, 10)
 	var mu sync.Mutex
 	var lines, impl, cases []string
+	only := os.Getenv("VERIF_IDX") // debugging aid: run the scenario of one index (same random stream)
 	for i := 0; i < n; i++ {
 		rs := r.Fork()
+		if only != "" && only != fmt.Sprint(i) {
+			continue
+		}
 		wg.Add(1)
 		sem <- struct{}{}
 		go func(i int, rs *Rng) {
